@@ -46,6 +46,26 @@ def run(ctx):
         dep = vf.sha(vf.read(os.path.join(H, fname)))
         for i, c in enumerate(cks):
             qjobs.append((fname, {'name': 'san_%s_%02d' % (fname[:-4], i), 'src': qh.wrapper(c, fname) + '\n// dep %s\n' % dep, 'opt': '-O0', 'flags': SAN}))
+    if thorough:
+        # the relation sweeps (every discovered operator, constructor, member; compound-assignment histories) and the tensor grids as well
+        from lib import rel
+        from checks.C04 import hist_sources
+        R = rel.relations(ctx)
+        for mode in (3, 4):
+            items = [code for m, code in rel.gen_items(R) if m == mode]
+            inc = ''.join('#include <PhQ/%s.hpp>\n' % n for n in vf.quantity_names())
+            for k in range(0, len(items), 70):
+                body = '\n'.join('  ' + c for c in items[k:k + 70])
+                src = (inc + rel.HEADER + 'template <class T>\nvoid items() {\n%s\n}\nint main() {\n  rel::MODE = %d;\n  items<float>();\n  items<double>();\n  items<long double>();\n}\n' % (body, mode))
+                qjobs.append(('rel', {'name': 'san_rel%d_%03d' % (mode, k // 70), 'src': src, 'opt': '-O0', 'flags': SAN}))
+        for j in hist_sources(ctx, R):
+            j = dict(j)
+            j['name'] = 'san_' + j['name']
+            j['flags'] = SAN
+            j['opt'] = '-O0'
+            qjobs.append(('hist', j))
+        single('c09', 'c09.cpp', [['float', 0, 16], ['double', 5, 16], ['longdouble', 11, 16]])
+        build_jobs = [j for _, j, _ in jobs]
     res = ctx.build_all(build_jobs + [j for _, j in qjobs])
     runs = []
     for (label, j, args_list), r in zip(jobs, res[:len(jobs)]):
